@@ -121,6 +121,7 @@ type pathState struct {
 	csvModel     bool
 	jsonDecode   value // harness closure standing in for encoding/json's decoder (vx.ModelJSONDecoder)
 	jsonReader   value
+	pools        map[*value][]value // sync.Pool model: objects Put on this path, per pool
 	released     map[*value]string // cells reachable from objects handed to sync.Pool.Put (use-after-release monitor)
 	jsonFactory  value // vx.ModelJSONStream: harness factory for a stream object
 	jsonStream   value // the current stream object (iface)
